@@ -402,6 +402,14 @@ def step1 (s : St) (w : List String) : St × String :=
         let s1 := syncP (setTrie s id.toNat! t1)
         (if id.toNat! = 0 then { s1 with fast0 := none } else s1, "ok " ++ rootStr t1.root)
     | _, _ => (s, "bad-op")
+  | ["iter", id] =>
+    match findTrie s id.toNat! with
+    | some (_, t) => (s, "ok " ++ fmtPairs (iterate t.tree []))
+    | none => (s, "bad-op")
+  | ["getv", id, p] =>
+    match findTrie s id.toNat!, parsePath p with
+    | some (_, t), some p => (s, match lookup t.tree p with | some b => "ok " ++ hex b | none => "notpresent")
+    | _, _ => (s, "bad-op")
   | ["get", id, p] =>
     match findTrie s id.toNat!, parsePath p with
     | some (_, t), some p => (s, match lookup t.tree p with | some b => "ok " ++ hex b | none => "notpresent")
@@ -455,7 +463,7 @@ def step (s : St) (w : List String) : St × String :=
   let r := if r.1.flag = "" then r else ({ r.1 with flag := "" }, r.2 ++ r.1.flag)
   match w.head? with
   | some h =>
-    if ["bulk", "light", "observe", "get", "pstore", "reopen", "prune", "crash-prune"].contains h then r
+    if ["bulk", "light", "observe", "get", "getv", "iter", "pstore", "reopen", "prune", "crash-prune"].contains h then r
     else ({ r.1 with fast0 := none }, r.2)
   | none => r
 
